@@ -45,58 +45,72 @@ pub fn dispatch(id: &str, tier: Tier, replay: Option<&str>, budget: Duration) ->
             "C05" | "C18" => e1::replay(id, &doc["case"], &mut report),
             "C19" => e7::replay(&doc["case"], &mut report),
             _ => {
-                eprintln!("no replay for {id}");
-                return 2;
+                // generic replay: the enumeration is deterministic, so the recorded case is executed again by
+                // re-running the check; only the recorded finding key is looked at
+                let key = doc["key"].as_str().unwrap_or("").to_string();
+                println!("replaying {id}: re-running the enumeration and looking for finding key {key}");
+                run_check(id, &mut report, budget);
+                let hits = report.hits_for(&key);
+                println!("replayed {id}: finding key {key} reproduced in {hits} case(s)");
+                println!("recorded case: {}", doc["case"]);
+                return i32::from(hits > 0);
             }
         }
         return report.finish();
     }
+    if !run_check(id, &mut report, budget) {
+        eprintln!("unknown property {id}");
+        return 2;
+    }
+    report.finish()
+}
+
+/// Run the check of property `id` into `report`; false if there is no such check.
+pub fn run_check(id: &str, report: &mut Report, budget: Duration) -> bool {
     match id {
-        "C05" | "C18" => e1::run(id, &mut report, budget),
+        "C05" | "C18" => e1::run(id, report, budget),
         "C02" => {
-            e2::run(id, &mut report, budget);
-            let n = e6::c02_slice(&mut report);
+            e2::run(id, report, budget);
+            let n = e6::c02_slice(report);
             report.add("traces_validated_against_impl", n);
             report.set("end_to_end_agent_runs", n);
         }
         "C01" => {
-            e2::run(id, &mut report, budget);
-            let n = e6::c01_slice(&mut report);
+            e2::run(id, report, budget);
+            let n = e6::c01_slice(report);
             report.add("traces_validated_against_impl", n);
             report.set("end_to_end_agent_runs", n);
         }
         "C03" => {
-            e2::run(id, &mut report, budget);
-            let n = e5::unobtainable_cases(&mut report, "C03");
+            e2::run(id, report, budget);
+            let n = e5::unobtainable_cases(report, "C03");
             report.add("evaluations", n);
             report.add("distinct_nontrivial", n);
             report.set("evaluation_fault_cases", n);
         }
-        "C16" => c16::run(&mut report),
-        "C08" => c08::run(&mut report),
-        "C09" => c09::run(&mut report),
-        "C10" => c10::run(&mut report),
+        "C16" => c16::run(report),
+        "C08" => c08::run(report),
+        "C09" => c09::run(report),
+        "C10" => c10::run(report),
         "C12" => {
-            c12::run(&mut report);
-            let n = e4::run_framing(&mut report);
+            c12::run(report);
+            let n = e4::run_framing(report);
             report.add("evaluations", n);
             report.set("real_transport_framing_cases", n);
         }
-        "C13" => c13::run(&mut report),
-        "C14" => c14::run(&mut report),
-        "C19" => e7::run(&mut report),
-        "C11" => e5::run_c11(&mut report, budget),
-        "C17" => e5::run_c17(&mut report, budget),
-        "C04" => e6::run_c04(&mut report),
-        "C15" => e6::run_c15(&mut report),
-        "C06" => e4::run_c06(&mut report),
-        "C07" => e4::run_c07(&mut report),
-        "C20" => c20::run(&mut report),
-        "probe-e5" => { e5::probe(); return 0; }
-        _ => {
-            eprintln!("unknown property {id}");
-            return 2;
-        }
+        "C13" => c13::run(report),
+        "C14" => c14::run(report),
+        "C19" => e7::run(report),
+        "C11" => e5::run_c11(report, budget),
+        "C17" => e5::run_c17(report, budget),
+        "C04" => e6::run_c04(report),
+        "C15" => e6::run_c15(report),
+        "C06" => e4::run_c06(report),
+        "C07" => e4::run_c07(report),
+        "C20" => c20::run(report),
+        "probe-e5" => e5::probe(),
+        _ => return false,
     }
-    report.finish()
+    true
+
 }
